@@ -59,7 +59,11 @@ type Term struct {
 	val  uint64
 	name string
 	id   int
+	vars []*Term // distinct variables below t (sorted by id); nil with many=true if more than maxVars
+	many bool
 }
+
+const maxVars = 6
 
 type termKey struct {
 	op         Op
@@ -100,6 +104,35 @@ func (b *termBank) mk(op Op, w int, val uint64, name string, args ...*Term) *Ter
 	t := &Term{op: op, w: w, val: val, name: name, id: b.next}
 	if len(args) > 0 {
 		t.args = append([]*Term(nil), args...)
+	}
+	if op == opVar {
+		t.vars = []*Term{t}
+	} else {
+		for _, a := range args {
+			if a.many {
+				t.many = true
+				break
+			}
+		}
+		if !t.many {
+			for _, a := range args {
+				for _, v := range a.vars {
+					found := false
+					for _, u := range t.vars {
+						if u == v {
+							found = true
+							break
+						}
+					}
+					if !found {
+						t.vars = append(t.vars, v)
+					}
+				}
+			}
+			if len(t.vars) > maxVars {
+				t.vars, t.many = nil, true
+			}
+		}
 	}
 	b.next++
 	b.tab[k] = t
@@ -683,4 +716,86 @@ func (t *Term) render(depth int) string {
 		name = fmt.Sprintf("extract[%d:%d]", t.val>>8, t.val&0xff)
 	}
 	return "(" + name + " " + strings.Join(parts, " ") + ")"
+}
+
+// allVars collects every variable below t (used when t.many).
+func (t *Term) allVars(seen map[int]bool, out *[]*Term) {
+	if seen[t.id] {
+		return
+	}
+	seen[t.id] = true
+	if t.op == opVar {
+		*out = append(*out, t)
+		return
+	}
+	if !t.many {
+		for _, v := range t.vars {
+			if !seen[v.id] {
+				seen[v.id] = true
+				*out = append(*out, v)
+			}
+		}
+		return
+	}
+	for _, a := range t.args {
+		a.allVars(seen, out)
+	}
+}
+
+// evalWith evaluates t with variable v bound to x and every other variable
+// taken from model; scratch is a reusable memo (cleared by the caller).
+func (t *Term) evalWith(v *Term, x uint64, model map[string]uint64, scratch map[int]uint64) uint64 {
+	if t == v {
+		return x
+	}
+	if t.op == opConst {
+		return t.val
+	}
+	if r, ok := scratch[t.id]; ok {
+		return r
+	}
+	var r uint64
+	switch t.op {
+	case opVar:
+		r = model[t.name] & maskB(t.w)
+	case opNot:
+		r = 1 - t.args[0].evalWith(v, x, model, scratch)
+	case opAnd:
+		r = t.args[0].evalWith(v, x, model, scratch) & t.args[1].evalWith(v, x, model, scratch)
+	case opOr:
+		r = t.args[0].evalWith(v, x, model, scratch) | t.args[1].evalWith(v, x, model, scratch)
+	case opIte:
+		if t.args[0].evalWith(v, x, model, scratch) != 0 {
+			r = t.args[1].evalWith(v, x, model, scratch)
+		} else {
+			r = t.args[2].evalWith(v, x, model, scratch)
+		}
+	case opEq:
+		if t.args[0].evalWith(v, x, model, scratch) == t.args[1].evalWith(v, x, model, scratch) {
+			r = 1
+		}
+	case opBnot:
+		r = ^t.args[0].evalWith(v, x, model, scratch) & mask(t.w)
+	case opNeg:
+		r = -t.args[0].evalWith(v, x, model, scratch) & mask(t.w)
+	case opZext:
+		r = t.args[0].evalWith(v, x, model, scratch)
+	case opSext:
+		r = uint64(sext64(t.args[0].evalWith(v, x, model, scratch), t.args[0].w)) & mask(t.w)
+	case opExtract:
+		lo := int(t.val & 0xff)
+		r = (t.args[0].evalWith(v, x, model, scratch) >> uint(lo)) & mask(t.w)
+	case opConcat:
+		r = (t.args[0].evalWith(v, x, model, scratch)<<uint(t.args[1].w) | t.args[1].evalWith(v, x, model, scratch)) & mask(t.w)
+	default:
+		a := t.args[0].evalWith(v, x, model, scratch)
+		b := t.args[1].evalWith(v, x, model, scratch)
+		rr, ok := evalBin(t.op, t.args[0].w, a, b)
+		if !ok {
+			panic("evalWith: unknown op")
+		}
+		r = rr
+	}
+	scratch[t.id] = r
+	return r
 }
